@@ -120,8 +120,16 @@ func c14Open(v *verifFS, content []byte, mode int) (afero.File, *refFile, bool) 
 const c14Kinds = 8
 
 // c14Step performs one symbolic handle call on both and compares the results.
+// c14Observe restricts the next c14Step to the calls that observe the handle's state: Read, Seek, Stat.
+var c14Observe bool
+
 func c14Step(h afero.File, ref *refFile, tag string) {
-	kind := vm.Choice(tag+".kind", c14Kinds)
+	kind := 0
+	if c14Observe {
+		kind = []int{0, 1, 5}[vm.Choice(tag+".kind", 3)]
+	} else {
+		kind = vm.Choice(tag+".kind", c14Kinds)
+	}
 	switch kind {
 	case 0: // Read(k)
 		k := vm.Int(tag+".k", 0, 3)
@@ -269,12 +277,16 @@ func Harness_C14_handle_matches_byte_array() {
 	if vm.Tier() == "thorough" && !fileCache && l <= 2 {
 		// (three calls with the memory cache, whose wrapper is STFS's own code, over files of up to two bytes; the file
 		// cache is an *os.File, and the three-byte file runs two-call sequences: 8^3 sequences x 5 modes x 4 lengths did
-		// not finish within the thorough budget)
+		// not finish within the thorough budget, so the third call is one of the three observers)
 		steps = 3
 	}
 	for i := 0; i < steps; i++ {
+		// (in a three-call sequence the third call is an observer — Read, Seek or Stat: what two arbitrary calls did to
+		// the content and the cursor shows there, and in what Close leaves behind)
+		c14Observe = i == 2
 		c14Step(h, ref, "s"+string(rune('0'+i)))
 	}
+	c14Observe = false
 	cerr := h.Close()
 	vm.Assert("C14.close_ok", cerr == nil)
 	if cerr != nil {
